@@ -1,5 +1,6 @@
 mod attack;
 mod cryptod;
+mod fetchd;
 mod full;
 mod hostile;
 mod local;
@@ -19,6 +20,8 @@ fn main() {
         }
         util::record_panic(format!("{}", info));
     }));
+    // fixes the epoch of the virtual clock (network::simnet::now_ms) before any runtime exists
+    network::simnet::reset();
     let args: Vec<String> = std::env::args().collect();
     let cmd = args.get(1).map(|s| s.as_str()).unwrap_or("");
     let rest: Vec<String> = args.iter().skip(2).cloned().collect();
@@ -32,8 +35,10 @@ fn main() {
         "rsender" => netd::rsender_main(&rest),
         "batch" => mempoold::batch_main(&rest),
         "qw" => mempoold::qw_main(&rest),
+        "qwnet" => mempoold::qwnet_main(&rest),
         "full" => full::main(&rest),
         "hostile" => hostile::main(&rest),
+        "fetch" => fetchd::main(&rest),
         "agg" => seq::agg_main(&rest),
         "committee" => seq::committee_main(&rest),
         "store" => seq::store_main(&rest),
